@@ -21,7 +21,10 @@ def sh(cmd, cwd=None, timeout=1800, env=GOENV):
 def main():
     prop, n = sys.argv[1], sys.argv[2]
     checks = sys.argv[3:] or [prop]
-    out = "/tmp/mut/%s/out/m%s" % (prop, n)
+    rnd = ""
+    if n.startswith("r2:"):
+        rnd, n = "r2", n[3:]
+    out = "/tmp/mut/%s/out%s/m%s" % (prop, "2" if rnd else "", n)
     patch = os.path.join(out, "patch.diff")
     meta = json.load(open(os.path.join(out, "meta.json")))
     readme = ""
@@ -71,7 +74,7 @@ def main():
         print(o1[-1500:])
         sys.exit(1)
     # keep it
-    sd = "/verif/seeded/%s-m%s" % (prop, n)
+    sd = "/verif/seeded/%s-%sm%s" % (prop, rnd, n)
     if os.path.isdir(sd):
         shutil.rmtree(sd)
     os.makedirs(sd)
